@@ -108,6 +108,11 @@ func (w *walker) tagsIn(ranges [][2]int) {
 		back = ttlv.Value{}
 		err = ttlv.UnmarshalXML([]byte(hand), &back)
 		w.check(err == nil && back.Tag == t, "C17:tag-xml-read:"+name, fmt.Sprintf("XML name %s read back as %06X (err %v), want %06X", name, back.Tag, err, t), hand)
+		// the generic element form with the tag given by its registered name (the name denotes the same number there)
+		generic := fmt.Sprintf(`<TTLV tag="%s" type="Integer" value="1"/>`, name)
+		back = ttlv.Value{}
+		err = ttlv.UnmarshalXML([]byte(generic), &back)
+		w.check(err == nil && back.Tag == t, "C17:tag-xml-read:generic-element:"+name, fmt.Sprintf("XML <TTLV tag=%q> read back as %06X (err %v), want %06X", name, back.Tag, err, t), generic)
 		j := ttlv.MarshalJSON(val)
 		jm, err := jsonElem(j)
 		w.check(err == nil && jm["tag"] == name, "C17:tag-json-write:"+name, fmt.Sprintf("JSON form of tag %06X has tag %v, want %s", t, jm["tag"], name), string(j))
@@ -446,6 +451,30 @@ func (w *walker) masks(r *core.Rand) {
 				fmt.Sprintf("the text %q obtained for mask %#x, read after other masks were marshalled, gives %#x (%v)", pair.txt, int32(pair.want), int32(back), err), nil)
 		}
 		_ = s1
+	}
+	// a token that is not a flag of the mask is not silently read as nothing
+	for _, doc := range []struct{ enc, mask, val string }{
+		{"json", "CryptographicUsageMask", "Sign|Verfy"}, {"json", "CryptographicUsageMask", "sign"}, {"json", "CryptographicUsageMask", "OnLineStorage"},
+		{"json", "StorageStatusMask", "Encrypt"}, {"json", "StorageStatusMask", "OnLineStorage|Bogus"},
+		{"xml", "CryptographicUsageMask", "Sign Verfy"}, {"xml", "StorageStatusMask", "Encrypt"},
+	} {
+		var raw string
+		var um kmip.CryptographicUsageMask
+		var sm kmip.StorageStatusMask
+		var dst any = &um
+		if doc.mask == "StorageStatusMask" {
+			dst = &sm
+		}
+		var err error
+		if doc.enc == "json" {
+			raw = fmt.Sprintf(`{"tag":"%s","type":"Integer","value":"%s"}`, doc.mask, doc.val)
+			err = ttlv.UnmarshalJSON([]byte(raw), dst)
+		} else {
+			raw = fmt.Sprintf(`<%s type="Integer" value="%s"/>`, doc.mask, doc.val)
+			err = ttlv.UnmarshalXML([]byte(raw), dst)
+		}
+		w.c.Count("unknown_flag_names", 1)
+		w.check(err != nil, "C17:mask-unknown-flag-accepted:"+doc.enc+":"+doc.mask, fmt.Sprintf("%s: the token list %q, part of which is no flag of %s, is read as %#x / %#x", doc.enc, doc.val, doc.mask, int32(um), int32(sm)), raw)
 	}
 	for _, mt := range maskTypes() {
 		names := w.reg.Masks[mt.name]
